@@ -395,8 +395,9 @@ class Report:
         blob = json.dumps(replay_obj, sort_keys=True)
         h = hashlib.sha1(blob.encode()).hexdigest()[:12]
         path = os.path.join(REPLAYS, "%s-%s.json" % (self.pid, h))
-        with open(path, "w") as f:
-            json.dump(replay_obj, f, indent=1, sort_keys=True)
+        if len(self.violations) < 40:
+            with open(path, "w") as f:
+                json.dump(replay_obj, f, indent=1, sort_keys=True)
         if path not in self.violations:
             self.violations.append(path)
             if len(self.violations) <= 20:
